@@ -101,9 +101,7 @@ def replay_model(chk, exes, cfgfile, tag):
         chk.model_violation(cfgfile, r)
         return
     g = tour.Graph()
-    for ln in r["lines"]["EDGE"]:
-        g.add(ln)
-    r["lines"]["EDGE"] = None
+    g.add_all(r["lines"]["EDGE"])
     roots = sorted(set(u for (u, a, v, to) in g.edges if json.loads(u)["thr"] == [0, 0, 0] and all(s["st"] == "free" for s in json.loads(u)["slot"])))
     by_min = {}
     npaths = ncov = 0
